@@ -91,10 +91,13 @@ def gen(rnd, nh_only=False, close=False):
     # a real H_0 (real factorisations of E - H_0) under a complex Hermitian perturbation: complex right-hand sides for real Green's functions
     cpert = close and herm and not cplx and structure == "generic" and rnd.random() < 0.35
     if cpert: structure = "real H_0, complex perturbation"
+    # a non-Hermitian H_0 (left and right vectors differ) under perturbations that are Hermitian matrices in the frame they are given in (a lossy system, a Hermitian drive)
+    hpert = close and not herm and rnd.random() < 0.35
+    if hpert: structure += ", Hermitian perturbation"
     def pert(scale):
         m = rand((N, N)) if structure != "real explicit vectors, complex rest" else rng.normal(size=(N, N))
         if cpert: m = m + 1j * rng.normal(size=(N, N))
-        return scale * ((m + m.conj().T) / 2 if herm else m)
+        return scale * ((m + m.conj().T) / 2 if (herm or hpert) else m)
     solver = "direct"
     if herm and rnd.random() < 0.3: solver = rnd.choice(["kpm", "kpm-aux"])
     fd = tuple(b for b in range(len(parts)) if rnd.random() < 0.3)
